@@ -286,6 +286,12 @@ const maxSigs = 1 << 19
 // hangMarker is where a worker leaves a note before exiting with status 3
 // when one run exceeds the wall-clock limit (suspected non-termination).
 var hangMarker string
+var traceFile string
+
+type crashNote struct {
+	hangNote
+	Stderr string
+}
 
 type hangNote struct {
 	Prop    string `json:"prop"`
@@ -363,7 +369,9 @@ func cmdWorker(args []string) int {
 	runs := fs.Int("runs", 1000, "")
 	out := fs.String("out", "", "")
 	first := fs.Int("first", 0, "first run index")
+	trace := fs.String("trace", "", "write the index of the run about to start into this file (used to locate a fatal crash)")
 	fs.Parse(args)
+	traceFile = *trace
 	runtime.GOMAXPROCS(1)
 	debug.SetGCPercent(-1)
 	debug.SetMemoryLimit(3 << 30) // safety net only; never reached by a well-behaved run
@@ -407,6 +415,9 @@ func workerLoop(spec *propSpec, prop, tier string, seed uint64, w, first, runs i
 			runtime.GC() // memory hygiene at a fixed run index (GC is otherwise off)
 		}
 		rs := runSeed(seed, w, r)
+		if traceFile != "" {
+			os.WriteFile(traceFile, []byte(strconv.Itoa(r)), 0o644)
+		}
 		tape := core.NewTape(rs)
 		wantPlan := len(res.Samples) < 2 && r >= first+runs/2
 		wd := armWatchdog(hangMarker, prop, tier, seed, rs, w, r)
@@ -489,6 +500,9 @@ type replayFile struct {
 	Note       string              `json:"note,omitempty"`
 	Hang       bool                `json:"hang,omitempty"`
 	HangProp   string              `json:"hang_prop,omitempty"`
+	Crash      bool                `json:"crash,omitempty"`
+	CrashW     int                 `json:"crash_w,omitempty"`
+	CrashR     int                 `json:"crash_r,omitempty"`
 }
 
 func countDraws(t map[string][]uint32) int {
@@ -579,6 +593,22 @@ func cmdReplay(args []string) int {
 	if err := json.Unmarshal(b, &rf); err != nil {
 		fmt.Fprintln(os.Stderr, "bad replay file:", err)
 		return 2
+	}
+	if rf.Crash {
+		cmd := exec.Command(os.Args[0], "worker", "-prop", rf.HangProp, "-tier", rf.Tier, "-seed", fmt.Sprint(rf.BaseSeed), "-w", fmt.Sprint(rf.CrashW), "-first", fmt.Sprint(rf.CrashR), "-runs", "1")
+		cmd.Env = append(os.Environ(), "VERIF_DIR="+verifDir)
+		out, err := cmd.CombinedOutput()
+		if err != nil {
+			msg := string(out)
+			if len(msg) > 800 {
+				msg = msg[:800]
+			}
+			fmt.Printf("REPRODUCED property=C20 class=C20/fatal-crash site=%s\nthe child process died: %v\n%s\n", rf.Site, err, msg)
+			fmt.Printf("VIOLATION property=C20 replay=%s\n", args[0])
+			return 1
+		}
+		fmt.Println("NOT-REPRODUCED C20|C20/fatal-crash: the run completed")
+		return 0
 	}
 	if rf.Hang {
 		spec := registry()[rf.HangProp]
@@ -696,9 +726,10 @@ func cmdCheck(args []string) int {
 		chunk = spec.Chunk
 	}
 	type slotResult struct {
-		res   []*workerResult
-		err   error
-		hangs []hangNote
+		res     []*workerResult
+		err     error
+		hangs   []hangNote
+		crashes []crashNote
 	}
 	ch := make(chan slotResult, *nw)
 	for w := 0; w < *nw; w++ {
@@ -725,9 +756,34 @@ func cmdCheck(args []string) int {
 							}
 						}
 					}
+					// The process died (fatal runtime error such as a stack overflow or
+					// concurrent map writes cannot be recovered in-process). Locate the
+					// run by executing the same chunk again with a trace file.
+					tr := out + ".trace"
+					cmd2 := exec.Command(os.Args[0], "worker", "-prop", *prop, "-tier", *tier, "-seed", fmt.Sprint(seed), "-w", fmt.Sprint(w), "-first", fmt.Sprint(first), "-runs", fmt.Sprint(n), "-out", out, "-trace", tr)
+					cmd2.Env = cmd.Env
+					var eb strings.Builder
+					cmd2.Stderr = &eb
+					err2 := cmd2.Run()
+					if tb, terr := os.ReadFile(tr); err2 != nil && terr == nil {
+						if r, perr := strconv.Atoi(strings.TrimSpace(string(tb))); perr == nil {
+							msg := eb.String()
+							if len(msg) > 1500 {
+								msg = msg[:1500]
+							}
+							sr.crashes = append(sr.crashes, crashNote{hangNote{*prop, *tier, seed, runSeed(seed, w, r), w, r, 0}, msg})
+							first = r + 1 - chunk
+							continue
+						}
+					}
+					if err2 == nil {
+						// it completed the second time: not reproducible, carry on with its result
+						goto readResult
+					}
 					sr.err = fmt.Errorf("worker %d (runs %d..%d): %v", w, first, first+n, err)
 					break
 				}
+			readResult:
 				b, err := os.ReadFile(out)
 				if err != nil {
 					sr.err = err
@@ -748,6 +804,7 @@ func cmdCheck(args []string) int {
 	}
 	var results []*workerResult
 	var hangs []hangNote
+	var crashes []crashNote
 	trouble := false
 	for w := 0; w < *nw; w++ {
 		sr := <-ch
@@ -757,6 +814,7 @@ func cmdCheck(args []string) int {
 		}
 		results = append(results, sr.res...)
 		hangs = append(hangs, sr.hangs...)
+		crashes = append(crashes, sr.crashes...)
 	}
 	if trouble {
 		fmt.Println("TROUBLE: a worker process failed; no verdict")
@@ -824,6 +882,34 @@ func cmdCheck(args []string) int {
 		confirmed++
 		fmt.Printf("violation: class=%s site=%s shrunk %d->%d draws\n  %s\n", v.Violation.Class, v.Violation.Site, v.ShrunkFrom, v.ShrunkTo, v.Violation.Detail)
 		lines = append(lines, fmt.Sprintf("VIOLATION property=%s replay=%s", v.Violation.Property, v.ReplayFile))
+	}
+	for i, cn := range crashes {
+		if i >= 2 {
+			break
+		}
+		rf := replayFile{Format: 1, Property: "C20", Class: "C20/fatal-crash", Site: spec.Scenario, Scenario: spec.Scenario, Tier: cn.Tier, BaseSeed: cn.Base, RunSeed: cn.RunSeed,
+			Violation: core.Violation{Property: "C20", Class: "C20/fatal-crash", Site: spec.Scenario, Detail: fmt.Sprintf("the process executing run w=%d r=%d died: %s", cn.W, cn.R, cn.Stderr)},
+			RepoTree: repoTree(), Crash: true, HangProp: *prop, CrashW: cn.W, CrashR: cn.R, Note: "a fatal runtime error kills the process, so there is no recorded tape to minimise: replay re-executes the run from its seed in a child process"}
+		b, _ := json.MarshalIndent(rf, "", " ")
+		path := filepath.Join(verifDir, "replays", fmt.Sprintf("%s-%d-crash-%d-%d.json", *prop, seed, cn.W, cn.R))
+		os.MkdirAll(filepath.Dir(path), 0o755)
+		os.WriteFile(path, b, 0o644)
+		cmd := exec.Command(os.Args[0], "replay", path)
+		cmd.Env = append(os.Environ(), "VERIF_DIR="+verifDir)
+		out, _ := cmd.CombinedOutput()
+		if strings.Contains(string(out), "REPRODUCED property=C20") {
+			fmt.Printf("violation: class=C20/fatal-crash: run w=%d r=%d kills the process again when re-executed\n  %s\n", cn.W, cn.R, strings.SplitN(cn.Stderr, "\n", 3)[0])
+			if *prop == "C20" {
+				confirmed++
+				lines = append(lines, fmt.Sprintf("VIOLATION property=C20 replay=%s", path))
+			} else {
+				m.Aborted++
+				m.AbortedKeys["C20|C20/fatal-crash|"+spec.Scenario]++
+			}
+		} else {
+			fmt.Printf("note: a worker process died once but the run completed when re-executed; not a finding: %s\n", path)
+			os.Remove(path)
+		}
 	}
 	for i, hn := range hangs {
 		if i >= 2 {
